@@ -316,3 +316,17 @@ class SegmentModel:
             return None
         seq, size = v.items
         return seq, size.e
+
+
+_MODELS: dict = {}
+
+
+def shared_model(ix, cg):
+    """One SegmentModel per index object (several rule groups of one check run interpret the same record loop)."""
+    key = id(ix)
+    m = _MODELS.get(key)
+    if m is None or m[0] is not ix:
+        m = (ix, SegmentModel(ix, cg))
+        _MODELS.clear()
+        _MODELS[key] = m
+    return m[1]
